@@ -115,6 +115,12 @@ func inputWireOrigin(p *load.Program, run *report.Run, fn *ssa.Function, key str
 		pos := p.Rel(at.Pos())
 		ex, ok := v.(*ssa.Extract)
 		if !ok || ex.Index != 0 {
+			// the pair built in place: L0 from a window of a buffer filled by one io.ReadFull of the entropy source,
+			// the window advanced by a label per wire, L1 a copy of L0 xor the offset
+			if why := inlineFreshPair(v, isOffset); why == "" {
+				run.OK(rule, key, pos, "L0 from its own window of a buffer filled by io.ReadFull, L1 = L0 xor r")
+				return
+			}
 			run.Violate(rule, key, pos, "a wire placed into the wire storage is not the result of makeLabels: that it is {fresh, fresh^r} is not established", nil)
 			return
 		}
@@ -272,4 +278,151 @@ func inPlacePairMaker(fn *ssa.Function) (rIdx, wIdx int, ok bool) {
 		}
 	}
 	return rIdx, wIdx, l0Fresh && l1Copy && l1Xor && !other
+}
+
+// inlineFreshPair: v is `ot.Wire{L0: l0, L1: l1}` with l0 set by SetBytes from a window of a byte buffer that one
+// io.ReadFull(rand, buf) — error tested — filled before the loop, the window advancing by at least a label per
+// iteration (`seed = seed[16:]`), and l1 a copy of l0 to which Xor(offset) is applied.  Returns "" if so.
+func inlineFreshPair(v ssa.Value, isOffset func(ssa.Value, int) bool) string {
+	ld, ok := v.(*ssa.UnOp)
+	if !ok || ld.Op != token.MUL {
+		return "not a composite value"
+	}
+	al, ok := ld.X.(*ssa.Alloc)
+	if !ok || al.Referrers() == nil {
+		return "not a local composite"
+	}
+	cellOf := func(field string) *ssa.Alloc {
+		var out *ssa.Alloc
+		n := 0
+		for _, rf := range *al.Referrers() {
+			fa, ok := rf.(*ssa.FieldAddr)
+			if !ok || structFieldName(fa.X.Type(), fa.Field) != field || fa.Referrers() == nil {
+				continue
+			}
+			for _, r2 := range *fa.Referrers() {
+				st, ok := r2.(*ssa.Store)
+				if !ok || st.Addr != ssa.Value(fa) {
+					continue
+				}
+				n++
+				if l, ok := st.Val.(*ssa.UnOp); ok && l.Op == token.MUL {
+					if c, ok := l.X.(*ssa.Alloc); ok {
+						out = c
+					}
+				}
+			}
+		}
+		if n != 1 {
+			return nil
+		}
+		return out
+	}
+	a, b := cellOf("L0"), cellOf("L1")
+	if a == nil || b == nil || a == b || a.Referrers() == nil || b.Referrers() == nil {
+		return "L0 and L1 are not two local labels"
+	}
+	// l1 := l0; l1.Xor(r)
+	copied, xored := 0, 0
+	for _, rf := range *b.Referrers() {
+		switch t := rf.(type) {
+		case *ssa.Store:
+			if t.Addr != ssa.Value(b) {
+				continue
+			}
+			if l, ok := t.Val.(*ssa.UnOp); ok && l.Op == token.MUL && l.X == ssa.Value(a) {
+				copied++
+			} else {
+				return "L1 is assigned something other than L0"
+			}
+		case *ssa.Call:
+			callee := t.Call.StaticCallee()
+			if callee == nil || len(t.Call.Args) == 0 || t.Call.Args[0] != ssa.Value(b) {
+				continue
+			}
+			if callee.Name() == "Xor" && len(t.Call.Args) == 2 && isOffset(t.Call.Args[1], 0) {
+				xored++
+			} else if callee.Name() != "Xor" {
+				return "L1 is changed by " + callee.Name()
+			} else {
+				return "L1 is xored with something other than the offset"
+			}
+		}
+	}
+	if copied != 1 || xored != 1 {
+		return "L1 is not one copy of L0 with one Xor of the offset"
+	}
+	// l0.SetBytes(window)
+	var win ssa.Value
+	for _, rf := range *a.Referrers() {
+		switch t := rf.(type) {
+		case *ssa.Store:
+			if t.Addr == ssa.Value(a) {
+				return "L0 is assigned directly"
+			}
+		case *ssa.Call:
+			callee := t.Call.StaticCallee()
+			if callee == nil || len(t.Call.Args) == 0 || t.Call.Args[0] != ssa.Value(a) {
+				continue
+			}
+			if callee.Name() == "SetBytes" && len(t.Call.Args) == 2 && win == nil {
+				win = t.Call.Args[1]
+			} else {
+				return "L0 is changed by " + callee.Name()
+			}
+		}
+	}
+	ph, ok := win.(*ssa.Phi)
+	if !ok {
+		return "L0 is not read from an advancing window"
+	}
+	var buf ssa.Value
+	advanced := false
+	for _, e := range ph.Edges {
+		if sl, ok := e.(*ssa.Slice); ok && sl.X == ssa.Value(ph) && sl.High == nil {
+			if k, ok := sl.Low.(*ssa.Const); ok && k.Value != nil && k.Int64() >= 16 {
+				advanced = true
+				continue
+			}
+			return "the window does not advance by a label"
+		}
+		if buf != nil && buf != e {
+			return "the window starts from more than one buffer"
+		}
+		buf = e
+	}
+	if !advanced || buf == nil {
+		return "the window does not advance"
+	}
+	// io.ReadFull(rand, buf) with its error tested, before the loop
+	fn := ph.Parent()
+	for _, blk := range fn.Blocks {
+		for _, ins := range blk.Instrs {
+			c, ok := ins.(*ssa.Call)
+			if !ok || c.Call.StaticCallee() == nil || c.Call.StaticCallee().String() != "io.ReadFull" || len(c.Call.Args) != 2 || c.Call.Args[1] != buf {
+				continue
+			}
+			if !blk.Dominates(ph.Block()) || c.Referrers() == nil {
+				continue
+			}
+			for _, rf := range *c.Referrers() {
+				ex, ok := rf.(*ssa.Extract)
+				if !ok || ex.Index != 1 || ex.Referrers() == nil {
+					continue
+				}
+				for _, r2 := range *ex.Referrers() {
+					bo, ok := r2.(*ssa.BinOp)
+					if !ok || bo.Op != token.NEQ || bo.Referrers() == nil {
+						continue
+					}
+					for _, r3 := range *bo.Referrers() {
+						if iff, ok := r3.(*ssa.If); ok && errorExit(iff.Block().Succs[0]) {
+							return ""
+						}
+					}
+				}
+			}
+		}
+	}
+	return "the buffer is not filled by an io.ReadFull whose error ends the function"
 }
